@@ -469,7 +469,7 @@ def forward_eval(enc, ins, vec):
         done = False
         if len(defined) == 1 and z3.is_eq(cons):
             lhs, rhs = cons.children()
-            if z3.is_const(lhs) and lhs.get_id() == defined[0]:
+            if z3.is_const(lhs) and lhs.get_id() == defined[0] and all(i in known for i in solve.consts_of(rhs)):
                 val = ev(rhs)
                 if z3.is_int_value(val) or z3.is_true(val) or z3.is_false(val):
                     m.update_value(lhs, val)
@@ -478,16 +478,19 @@ def forward_eval(enc, ins, vec):
         if not done:
             s = z3.Solver()
             s.set("timeout", 10000)
-            s.add(ev(cons))
+            # NB: never evaluate a term with still-unassigned constants through the model: z3's model
+            # evaluator caches the partially evaluated sub-terms and later returns them stale.
+            cs = solve.consts_of(cons)
+            pairs = [(c, m.eval(c, model_completion=False)) for i, c in cs.items() if i in known]
+            s.add(z3.simplify(z3.substitute(cons, *pairs)) if pairs else cons)
             r = s.check()
             if r != z3.sat:
                 return None, "def %s: %s" % (str(cons)[:120], r)
             lm = s.model()
-            for d in lm.decls():
-                cst = d()
-                if cst.get_id() in defined:
-                    m.update_value(cst, lm[d])
-                    known.add(cst.get_id())
+            for did in defined:
+                cst = enc.const_by_id[did]
+                m.update_value(cst, lm.eval(cst, model_completion=True))
+                known.add(did)
     def evc(t):
         return z3.simplify(m.eval(t, model_completion=True))
     return evc, None
